@@ -133,6 +133,18 @@ def path_argument(world, gd, spec):
     return [fn(i) for i in order], order
 
 
+def subsamples_argument(case):
+    """The case's subsample selection as the user would spell it: for dictionaries the key order is a legal degree
+    of freedom (``dict(B=True, A=True, pos=True)``), drawn from ``case['sub_order']``."""
+    import copy
+    sub = copy.deepcopy(case['subsamples'])
+    if isinstance(sub, dict) and case.get('sub_order') is not None:
+        items = sorted(sub.items())
+        random.Random(case['sub_order']).shuffle(items)
+        sub = dict(items)
+    return sub
+
+
 def load(gd_arg, **kw):
     from abacusnbody.data.compaso_halo_catalog import CompaSOHaloCatalog
     return CompaSOHaloCatalog(gd_arg, **kw)
